@@ -309,11 +309,166 @@ def gen_raw(rng, malformed):
 
 
 # ------------------------------------------------------------------------------------------------
+# valid compressed proofs with NON-optimal marking (equal expressions marked twice, Z after back-references)
+# ------------------------------------------------------------------------------------------------
+
+ARITY = {'imp-is-pattern': 2, 'proof-rule-prop-1': 2, 'proof-rule-prop-2': 3, 'proof-rule-mp': 4}
+# uncompressed proof of |- ( \imp ph0 ph0 ) as shipped in mm-benchmarks/impreflex.mm (A = ph0's hypothesis,
+# B imp-is-pattern, C proof-rule-prop-1, D proof-rule-mp, E proof-rule-prop-2)
+IMPREFL = 'AAABBAABAAABABBAAABBAABBAAABAEAAABCDAACD'
+IMPREFL_LBL = {'B': 'imp-is-pattern', 'C': 'proof-rule-prop-1', 'D': 'proof-rule-mp', 'E': 'proof-rule-prop-2'}
+
+
+def rpn_tree(letters, leaf):
+    st = []
+    for ch in letters:
+        if ch == 'A':
+            st.append(leaf)
+        else:
+            lbl = IMPREFL_LBL[ch]
+            n = ARITY[lbl]
+            args = st[-n:]
+            del st[-n:]
+            st.append((lbl, tuple(args)))
+    assert len(st) == 1
+    return st[0]
+
+
+def rand_wff(rng, vars_, depth):
+    if depth <= 0 or rng.random() < 0.35:
+        return (rng.choice(vars_), ())
+    return ('imp-is-pattern', (rand_wff(rng, vars_, depth - 1), rand_wff(rng, vars_, depth - 1)))
+
+
+def wff_text(t):
+    return t[0] if not t[1] else f'( \\imp {wff_text(t[1][0])} {wff_text(t[1][1])} )'
+
+
+def tree_vars(t, acc):
+    if not t[1] and t[0] not in ARITY:
+        acc.add(t[0])
+    for c in t[1]:
+        tree_vars(c, acc)
+    return acc
+
+
+def gen_marked_proof(rng, idx):
+    """database + goal + a legal compressed proof whose Z placement is random (not size-optimal)"""
+    extra = rng.sample(['th0', 'psi', 'chi', 'x0', 'q', 'ptn0', 'w1'], rng.randint(0, 3))
+    order = ['ph0', 'ph1', 'ph2']            # schema variables: their $f statements keep this relative order
+    for v in extra:
+        order.insert(rng.randint(0, len(order)), v)
+    decl = order[:]
+    rng.shuffle(decl)
+    fl = {v: (f'{v}-is-pattern' if rng.random() < 0.6 else f'{v}-pattern') for v in order}
+    gvars = rng.sample(order, rng.randint(1, min(3, len(order))))
+    kind = rng.choice(['prop1', 'prop2', 'refl', 'refl'])
+    if kind == 'prop1':
+        P, Q = rand_wff(rng, gvars, 3), rand_wff(rng, gvars, 2)
+        tree = ('proof-rule-prop-1', (P, Q))
+        goal = f'( \\imp {wff_text(P)} ( \\imp {wff_text(Q)} {wff_text(P)} ) )'
+    elif kind == 'prop2':
+        P, Q, Rr = rand_wff(rng, gvars, 2), rand_wff(rng, gvars, 2), rand_wff(rng, gvars, 2)
+        tree = ('proof-rule-prop-2', (P, Q, Rr))
+        a, b, c = wff_text(P), wff_text(Q), wff_text(Rr)
+        goal = f'( \\imp ( \\imp {a} ( \\imp {b} {c} ) ) ( \\imp ( \\imp {a} {b} ) ( \\imp {a} {c} ) ) )'
+    else:
+        P = rand_wff(rng, gvars, 2)
+        tree = rpn_tree(IMPREFL, P)
+        goal = f'( \\imp {wff_text(P)} {wff_text(P)} )'
+    used = tree_vars(tree, set())
+    mand = [v for v in order if v in used]
+    labs = sorted({n[0] for n in _nodes(tree) if n[0] in ARITY})
+    rng.shuffle(labs)
+    if rng.random() < 0.3:
+        labs.insert(rng.randint(0, len(labs)), 'proof-rule-prop-2' if 'proof-rule-prop-2' not in labs else 'proof-rule-prop-1')
+        labs = list(dict.fromkeys(labs))
+    m, k = len(mand), len(labs)
+    num = {v: i + 1 for i, v in enumerate(mand)}
+    num.update({l: m + i + 1 for i, l in enumerate(labs)})
+    p_ref, p_mark, p_zafter = rng.choice([(0.8, 0.6, 0.5), (0.5, 0.3, 0.3), (0.9, 0.8, 0.7), (1.0, 0.25, 0.0)])
+    out, marks, feats = [], {}, set()
+    nmarks = [0]
+
+    def mark(key):
+        if key in marks:
+            feats.add('equal-expression-marked-again')
+        marks.setdefault(key, []).append(nmarks[0])
+        nmarks[0] += 1
+        out.append(0)
+
+    def emit(node):
+        key = repr(node)
+        if key in marks and rng.random() < p_ref:
+            j = rng.choice(marks[key])
+            if j != marks[key][0] or any(j > x[0] for kk, x in marks.items() if kk != key and len(x) > 1):
+                feats.add('reference-past-a-duplicate-mark')
+            out.append(m + k + j + 1)
+            if rng.random() < p_zafter:
+                feats.add('z-after-back-reference')
+                mark(key)
+            return
+        for c in node[1]:
+            emit(c)
+        out.append(num[node[0]])
+        if rng.random() < (p_mark if node[1] else p_mark / 2):
+            mark(key)
+
+    emit(tree)
+    src = ['$c #Pattern |- \\imp ( ) $.', '$v ' + ' '.join(decl) + ' $.']
+    src += [f'{fl[v]} $f #Pattern {v} $.' for v in order]
+    src += ['imp-is-pattern $a #Pattern ( \\imp ph0 ph1 ) $.',
+            'proof-rule-prop-1 $a |- ( \\imp ph0 ( \\imp ph1 ph0 ) ) $.',
+            'proof-rule-prop-2 $a |- ( \\imp ( \\imp ph0 ( \\imp ph1 ph2 ) ) ( \\imp ( \\imp ph0 ph1 ) ( \\imp ph0 ph2 ) ) ) $.',
+            '${ proof-rule-mp.0 $e |- ( \\imp ph0 ph1 ) $.  proof-rule-mp.1 $e |- ph0 $.  proof-rule-mp $a |- ph1 $. $}']
+    words = chunk(rng, letters_of(out))
+    name = f'marked{idx}'
+    src.append(f'{name} $p |- {goal} $= ( {" ".join(labs)} ) {" ".join(words)} $.')
+    return dict(src='\n'.join(src) + '\n', target=name, m=m, k=k, steps=out, feats=sorted(feats), kind=kind,
+                labels=[fl[v] for v in mand] + labs)
+
+
+def _nodes(t):
+    yield t
+    for c in t[1]:
+        yield from _nodes(c)
+
+
+def marks_oracle(steps, mk, tops, err):
+    """Appendix B on the observed replay, independent of the model: a Z saves the term the preceding step left on
+    top (and leaves the stack alone); number mk + j + 1 denotes the term saved by the (j+1)-th Z, duplicates counted.
+    Returns None or (step index, explanation)."""
+    saved = []
+    for i, n in enumerate(steps):
+        done = i < len(tops)
+        if n == 0:
+            if i == 0:
+                return None                       # Z before any step: not a valid proof, no judgement
+            if not done:
+                return (i, f'raises at Z: {err}')
+            if tops[i] != tops[i - 1]:
+                return (i, 'Z changed the top of the stack')
+            saved.append(tops[i - 1])
+        elif n > mk:
+            j = n - mk - 1
+            if j >= len(saved):
+                return None                       # reference to a step not yet marked: invalid proof
+            if not done:
+                return (i, f'raises at the reference to marked step {j + 1} (number {n}) although {len(saved)} steps are marked: {err}')
+            if tops[i] != saved[j]:
+                return (i, f'number {n} = marked step {j + 1} loads term #{tops[i]}, but the {j + 1}-th Z marked term #{saved[j]}')
+        elif not done:
+            return None                           # a hypothesis/label step failed: outside this oracle (C16)
+    return None
+
+
+# ------------------------------------------------------------------------------------------------
 # the check
 # ------------------------------------------------------------------------------------------------
 
 def model_exe():
-    return C.build_mlref('mm15', 'Extract/ExtractMM15.v', 'mm15_model', 'mm15_driver.ml', 'mlref_mm15', ['MM15/Codec.vo'])
+    return C.build_mlref('mm15', 'Extract/ExtractMM15.v', 'mm15_model', 'mm15_driver.ml', 'mlref_mm15',
+                         ['MM15/Codec.vo', 'MM15/Replay.vo'])
 
 
 def setup():
@@ -555,6 +710,61 @@ def run(tier, seed):
                     break
         R.sample({'db': dbs[-1]['src'][-300:], 'floats': dbs[-1]['floats']})
 
+        # ---- (e) marked steps during replay: real translate.exec_proof vs MM15/Replay.v -------------------
+        rngm = C.rng_for(seed, CID + ':marks')
+        mps = []
+        for fn in sorted(os.listdir(CORPUS)) if os.path.isdir(CORPUS) else []:
+            d = json.load(open(os.path.join(CORPUS, fn)))
+            if d.get('kind') == 'replay':
+                d['corpus'] = fn
+                mps.append(d)
+        for i in range(160 if quick else 3000):
+            mps.append(gen_marked_proof(rngm, i))
+        ireq = [json.dumps({'k': 'replay', 'src': c['src'], 'target': c['target']}) for c in mps]
+        rseeds = seeds[:2]
+        rout = {hs: run_py_parallel(ireq, hs) for hs in rseeds}
+        mreq = []
+        for c, a in zip(mps, rout[rseeds[0]]):
+            a = a or {}
+            steps, tops = a.get('steps', c['steps']), a.get('tops', [])
+            mreq.append(f"Y 0 {c['m']} {c['k']} " + (','.join(f'{n}:{tops[i] if i < len(tops) and tops[i] >= 0 else 0}'
+                                                                   for i, n in enumerate(steps)) or '_'))
+        mo = C.run_lines_parallel(exe, mreq)
+        for c, o in zip(mps, mo):
+            feats = ','.join(c.get('feats', [])) or 'plain-marking'
+            R.case(('replay', c['src']), True, f"replay:{c.get('kind', 'corpus')}:{feats}")
+        for ci, (c, o) in enumerate(zip(mps, mo)):
+            for hs in rseeds:
+                a = rout[hs][ci]
+                rp = {'kind': 'replay', 'src': c['src'], 'target': c['target'], 'm': c['m'], 'k': c['k'], 'steps': c['steps'],
+                      'hashseed': hs, 'features': c.get('feats')}
+                if a is None or 'steps' not in a:
+                    mismatches.append(('replay-runner', rp, None, a))
+                    continue
+                if a['steps'] != c['steps'] or a['labels'] != c['labels']:
+                    mismatches.append(('replay-decoding', rp, (c['labels'], c['steps']), (a['labels'], a['steps'])))
+                    continue
+                tops, err = a['tops'], a['err']
+                # oracle on the implementation (always)
+                bad = marks_oracle(a['steps'], c['m'] + c['k'], tops, err)
+                if bad:
+                    note_oracle('exec_proof:marked-step-number-resolves-to-wrong-step',
+                                f'{c["target"]}: step {bad[0]} of {a["steps"]}: {bad[1]}',
+                                dict(rp, step=bad[0], why=bad[1], tops=tops, err=err, terms=a.get('terms')))
+                # model vs implementation (first hash seed carries the label-step terms the model was given)
+                if hs == rseeds[0]:
+                    if o == 'N' or not o.startswith('OK'):
+                        if err is None:
+                            mismatches.append(('replay', rp, o, 'implementation replays the proof'))
+                    else:
+                        evs = [] if o == 'OK _' else o[3:].split(',')
+                        pred = [int(e[1:].split(':')[-1]) for e in evs]
+                        if err is not None or pred[:len(tops)] != [t if t >= 0 else 0 for t in tops] or len(tops) != len(a['steps']):
+                            mismatches.append(('replay', rp, o[:300], dict(tops=tops, err=err)))
+                elif (tops, err is None) != (rout[rseeds[0]][ci].get('tops'), rout[rseeds[0]][ci].get('err') is None):
+                    mismatches.append(('replay-under-seed', rp, None, None))
+        R.sample({'marked_proof': mps[-1]['src'].strip().split('\n')[-1][:200], 'steps': mps[-1]['steps'][:40], 'features': mps[-1].get('feats')})
+
     # ---- verdict ------------------------------------------------------------------------------
     for sig, desc, replay in oracle_fail[:8]:
         R.violation(sig, desc, replay)
@@ -591,6 +801,17 @@ def replay(path):
         print('model         :', model_outcome(m[0]))
         print('implementation:', impl_outcome(a[0]), a[0])
         return 0 if model_outcome(m[0]) == impl_outcome(a[0]) else 1
+    if rp.get('kind') == 'replay':
+        a = run_py_parallel([json.dumps({'k': 'replay', 'src': rp['src'], 'target': rp['target']})], hs, 1)[0] or {}
+        print(rp['src'])
+        print('implementation (translate.exec_proof):', json.dumps(a)[:1500])
+        steps, tops = a.get('steps', rp['steps']), a.get('tops', [])
+        m = C.run_lines(exe, [f"Y 0 {rp['m']} {rp['k']} " + (','.join(f'{n}:{tops[i] if i < len(tops) and tops[i] >= 0 else 0}'
+                                                                        for i, n in enumerate(steps)) or '_')])
+        print('model (MM15/Replay.v, every Z appends):', m[0][:600])
+        bad = marks_oracle(steps, rp['m'] + rp['k'], tops, a.get('err'))
+        print('Appendix B oracle:', 'ok' if not bad else f'step {bad[0]}: {bad[1]}')
+        return 1 if bad or a.get('err') else 0
     if rp.get('kind') == 'db':
         rc = 0
         impl = {}
